@@ -657,6 +657,11 @@ def finalize(agg):
         out.append('no restart was observed')
     if c.get('convergence_errors', 0) == 0:
         out.append('no ConvergenceError was observed (budget exhaustion never reached)')
+    for k, why in (('variant_accepted_steps', 'no accepted step of an adaptivity variant was judged'), ('variant_rejected_attempts', 'no adaptivity variant rejected an attempt'), ('variant_steps_beyond_maxiter', 'avoid_restarts never continued a step beyond maxiter')):
+        if c.get(k, 0) == 0:
+            out.append(why)
+    if not {'avoid:ok', 'poly:ok', 'poly_nomax:ok', 'extrap:ok'} <= set(agg['seen'].get('variant', ())):
+        out.append(f"not every adaptivity variant completed a run: {sorted(agg['seen'].get('variant', ()))}")
     return out
 
 
